@@ -88,6 +88,13 @@ func (fx *FnCtx) resolveAssign(as *AssignSet, e Expr, env map[string]SVal, st *S
 			key, _ := fx.tm.heapKey(t)
 			as.byKey[key] = append(as.byKey[key], assignLoc{kind: "since", ref: x0.v.t, field: -1, typ: t})
 			return
+		case "slot":
+			// slot(s): the one cell just past the end of s in its backing array (the target of an in-place append)
+			sv := fx.evalIn(x.Args[0], env, st, st, nil)
+			stp := sv.typ.Underlying().(*types.Slice)
+			key, _ := fx.tm.heapKey(stp.Elem())
+			as.byKey[key] = append(as.byKey[key], assignLoc{kind: "cell", ref: fmt.Sprintf("(mkref (sobj %s) (+ (soff %s) (slen %s)))", sv.v.t, sv.v.t, sv.v.t), field: -1, typ: stp.Elem()})
+			return
 		case "objcells":
 			// objcells(p, "T"): every cell of type T inside the object p points to (storage owned by p: e.g. the
 			// record buffer of an encoding/csv.Reader)
@@ -261,6 +268,10 @@ func (fx *FnCtx) havocWithFrame(st, pre *State, m *Modset, as *AssignSet) {
 			old := fx.heap(pre, key, srt)
 			if e.freshOnly {
 				continue // see havocHeaps
+			}
+			if nh, ok := fx.storeFormHavoc(as, key, srt, e, old); ok {
+				st.heaps[key] = nh
+				continue
 			}
 			h := fx.s.freshConst("Hc", "(Array Ref "+srt+")")
 			st.heaps[key] = h
@@ -440,4 +451,41 @@ func (fx *FnCtx) frameAssumption(st, pre *State) {
 			fx.s.assume("true", fx.frameFact(fx.assignSet, k, srt, fx.assignSet.byKey[k][0].typ, h, old, fx.allocEntry))
 		}
 	}
+}
+
+// storeFormHavoc: when the callee may assign only finitely many named cells of a heap, the heap after the call is
+// the old heap with exactly those cells (or those fields of them) replaced by unknown values: no quantified frame
+// is needed. Cells the callee allocates itself keep whatever (unconstrained) content the old array has there.
+func (fx *FnCtx) storeFormHavoc(as *AssignSet, key, srt string, e *modEntry, old Term) (Term, bool) {
+	locs := as.byKey[key]
+	if len(locs) == 0 || len(locs) > 4 {
+		return "", false
+	}
+	for _, l := range locs {
+		if l.kind != "cell" {
+			return "", false
+		}
+	}
+	_, isStruct := e.typ.Underlying().(*types.Struct)
+	isStruct = isStruct && !isTimeTime(e.typ) && !e.isMap
+	h := old
+	for _, l := range locs {
+		var nv Term
+		if l.field >= 0 && isStruct {
+			si := fx.tm.structInfo(e.typ)
+			var parts []string
+			for i, f := range si.Fields {
+				if i == l.field {
+					parts = append(parts, fx.s.freshConst("fld", f.Sort))
+				} else {
+					parts = append(parts, fmt.Sprintf("(%s (select %s %s))", f.Sel, h, l.ref))
+				}
+			}
+			nv = "(" + si.Ctor + " " + strings.Join(parts, " ") + ")"
+		} else {
+			nv = fx.s.freshConst("cellv", srt)
+		}
+		h = fmt.Sprintf("(store %s %s %s)", h, l.ref, nv)
+	}
+	return fx.s.define("Hs", "(Array Ref "+srt+")", h), true
 }
